@@ -243,14 +243,13 @@ pub open spec fn dinv(p: &LuaDocParser) -> bool {
     }
 }
 
-/// frame of every driver / grammar function: the origin tokens, the text, the parser state flag, the borrowed LuaParser's cursor
-/// and configuration are untouched, the borrowed parser is never exchanged (same prophecy), events only
+/// frame of every driver / grammar function: the origin tokens, the text, the borrowed LuaParser's cursor and configuration
+/// are untouched (the grammar's own mode flag `state` is free), the borrowed parser is never exchanged (same prophecy), events only
 /// grow (NodeStarts stay NodeStarts) and so do the eaten ranges
 #[verifier::prophetic]
 pub open spec fn dframe(a: &LuaDocParser, b: &LuaDocParser) -> bool {
     &&& b.tokens@ == a.tokens@
     &&& b.lexer.origin_text == a.lexer.origin_text
-    &&& b.state == a.state
     &&& same_cursor(&*a.lua_parser, &*b.lua_parser)
     &&& b.lua_parser.text == a.lua_parser.text
     &&& *final(b.lua_parser) == *final(a.lua_parser)
@@ -386,28 +385,59 @@ pub open spec fn gram_pre(p: &LuaDocParser) -> bool {
     dinv(p) && !(p.current_token is None) && plvl_ok(p)
 }
 
-/// what a grammar function must establish ("preserves the driver invariant, does not un-eat"): the invariant again, and between
-/// entry and exit the appended EatToken ranges tile [front(entry), front(exit)); marker level not below entry and <= #events
+/// one or more steps of the driver / the grammar, from state `a` to state `b`: the invariant holds again, a token or TkEof is
+/// pending, the EatToken ranges appended in between tile exactly [front(a), front(b)) ("does not un-eat"), inside the span
 #[verifier::prophetic]
-pub open spec fn gram_post(a: &LuaDocParser, b: &LuaDocParser) -> bool {
+pub open spec fn gstep(a: &LuaDocParser, b: &LuaDocParser) -> bool {
     &&& dinv(b)
     &&& !(b.current_token is None)
     &&& ate(a, b)
+    &&& front(a) <= front(b) <= span_hi(b.tokens@)
+}
+
+/// what a grammar function must establish: `gstep` from entry to exit; marker level not below its entry value and <= #events
+#[verifier::prophetic]
+pub open spec fn gram_post(a: &LuaDocParser, b: &LuaDocParser) -> bool {
+    &&& gstep(a, b)
     &&& b.sp_level() >= a.sp_level()
     &&& plvl_ok(b)
 }
 
-pub proof fn lemma_gram_trans(a: &LuaDocParser, b: &LuaDocParser, c: &LuaDocParser)
-    requires gram_post(a, b), gram_post(b, c),
-    ensures gram_post(a, c),
+pub proof fn lemma_gstep_refl(a: &LuaDocParser)
+    requires dinv(a), !(a.current_token is None),
+    ensures gstep(a, a),
+{
+    lemma_ate_refl(a);
+    lemma_front_bounds(a);
+}
+
+/// steps compose (broadcast inside parse_docs / parse_description / parse_comment: the chaining of the ~20 driver calls)
+pub broadcast proof fn lemma_gstep_trans(a: &LuaDocParser, b: &LuaDocParser, c: &LuaDocParser)
+    requires #[trigger] gstep(a, b), #[trigger] gstep(b, c),
+    ensures gstep(a, c),
 {
     lemma_ate_trans(a, b, c);
 }
 
-/// a driver step (level unchanged) as a grammar step
-pub proof fn lemma_gram_of_drive(a: &LuaDocParser, b: &LuaDocParser)
-    requires dinv(b), !(b.current_token is None), ate(a, b), b.sp_level() == a.sp_level(), plvl_ok(a),
-    ensures gram_post(a, b),
+/// a driver call is a step
+pub broadcast proof fn lemma_gstep_of_drive(a: &LuaDocParser, b: &LuaDocParser)
+    requires dinv(b), !(b.current_token is None), #[trigger] ate(a, b),
+    ensures gstep(a, b),
 {
-    // events only grow
+    lemma_ate_le(a, b);
+    lemma_front_bounds(b);
+}
+
+/// a marker call (rest untouched, no EatToken added or removed, NodeStarts stay) is a step that leaves the frontier alone
+pub broadcast proof fn lemma_gstep_of_marker(a: &LuaDocParser, b: &LuaDocParser)
+    requires
+        dinv(a), !(a.current_token is None),
+        b.sp_rest() == a.sp_rest(),
+        eaten(b.sp_events()) == eaten(a.sp_events()),
+        #[trigger] ev_mono(a.sp_events(), b.sp_events()),
+    ensures
+        gstep(a, b), front(b) == front(a), b.current_token == a.current_token,
+{
+    lemma_quiet_step(a, b);
+    lemma_front_bounds(a);
 }
